@@ -743,6 +743,14 @@ def r7(ck, F, rid="C07.R7"):
             if t[0] == "call" and t[1].rsplit("::", 1)[-1] in ("any", "all") and len(t[2]) == 2:
                 cb = F.body(closure_of_term(t[2][1]) or "")
                 rets = {show(q.ret) for q in PathEval(cb).run() if q.end == "return"} if cb else set()
+                # `unfiltered && not an absent (None) layer`: an Option::None / empty element has no say -- it must behave
+                # as if it were not in the Vec at all. Recognised as the conjunction of two is_none(downcast_raw(..)) tests,
+                # the second one for the crate's none-layer marker.
+                if cb and rets == {"0", "is_none(downcast_raw(arg2, of()))"}:
+                    ofs = [tt["callee"].get("targs", [""])[0] for _, tt in cb.calls() if tt["callee"].get("path") == "core::any::TypeId::of"]
+                    first = [show(cc[0]) for q in PathEval(cb).run() if q.end == "return" and show(q.ret) != "0" for cc in q.conds if cc[1] != 0]
+                    if ofs and all(o.endswith("NoneLayerMarker") for o in ofs) and first and all(x.startswith("is_none(downcast_raw(arg2, arg1.") for x in first):
+                        rets = {"is_none(downcast_raw(arg2, arg1.id)) [and not a none-layer]"}
                 quant = (t[1].rsplit("::", 1)[-1], sorted(rets), c[1] != 0)
         rows.append((quant, show(p.ret)))
     ok = bool(rows)
@@ -769,6 +777,9 @@ def r7(ck, F, rid="C07.R7"):
             continue
         if unfiltered_exists and not ret.startswith("Option::None"):
             ok, why = False, "with an unfiltered element the marker is answered %s instead of None" % ret[:60]
+        if pred and "[and not a none-layer]" not in pred[0]:
+            ok, why = False, ("an Option::None (or empty) element counts as an unfiltered layer: a Vec of filtered layers and a None is not recognised as "
+                              "per-layer-filtered, and the enclosing Layered publishes the filters' hint for the whole stack")
     if ok:
         ck.ok(rid, key, fn=b.path, detail=[str(r) for r in rows])
     else:
@@ -781,7 +792,28 @@ def r7(ck, F, rid="C07.R7"):
         got = [show(p.ret) for p in PathEval(lb).run() if p.end == "return"
                and any(show(c[0]).startswith("is_psf_downcast_marker(") and c[1] != 0 for c in p.conds)]
         good = {"and(downcast_raw(arg1.subscriber, arg2), downcast_raw(arg1.inner, arg2))", "and(downcast_raw(arg1.inner, arg2), downcast_raw(arg1.subscriber, arg2))"}
-        if got and all(g in good for g in got):
-            ck.ok(rid, key2, fn=lb.path, detail=got)
+        # one half alone may answer only when the other half is an absent (None / empty) layer: it answered None for the
+        # marker *and* Some for the none-layer marker on that path
+        wrong = []
+        for p in PathEval(lb).run():
+            if p.end != "return" or not any(show(c[0]).startswith("is_psf_downcast_marker(") and c[1] != 0 for c in p.conds):
+                continue
+            r = show(p.ret)
+            if r in good:
+                continue
+            conds = {show(c[0]): c[1] for c in p.conds}
+            ok1 = False
+            for me, other in (("inner", "subscriber"), ("subscriber", "inner")):
+                if r == "downcast_raw(arg1.%s, arg2)" % me and conds.get("is_none(downcast_raw(arg1.%s, arg2))" % other, 0) != 0 \
+                        and conds.get("is_some(downcast_raw(arg1.%s, of()))" % other, 0) != 0:
+                    ok1 = True
+            if not ok1:
+                wrong.append(r[:80])
+        single = {g for g in got if g not in good}
+        if got and not wrong and len(single) < 2:
+            ck.bad(rid, key2, where(lb.raw["sp"]), "an absent (None / empty) half is not neutral: `None.and_then(filtered)` is not recognised as per-layer-filtered "
+                   "and its filter's hint is published for the whole stack (answers: %s)" % sorted(set(got)), fn=lb.path)
+        elif got and not wrong:
+            ck.ok(rid, key2, fn=lb.path, detail=sorted(set(got)))
         else:
-            ck.bad(rid, key2, where(lb.raw["sp"]), "the marker is answered %s" % (got or "on no path"), fn=lb.path)
+            ck.bad(rid, key2, where(lb.raw["sp"]), "the marker is answered %s" % (wrong or "on no path"), fn=lb.path)
